@@ -60,6 +60,9 @@ def main():
             raise report.Machinery(str(ex))
         mod = importlib.import_module("checks." + prop.lower())
         if a.selftest:
+            if not hasattr(mod, "selftest"):
+                print("%s has no trace-validation step to corrupt (modes G / O only): no selftest" % prop)
+                return 0
             return mod.selftest(seed)
         if a.replay:
             if hasattr(mod, "replay"):
